@@ -178,6 +178,22 @@ def specTimer (c : Case) (o : Obs) : Option String :=
       (if mean.floor == mean then
         expectField o "std" (Float.sqrt (sumR (sorted.map (fun x => (x - mean) * (x - mean))) / nF))
        else none) ] else []
+    -- the population standard deviation, for arbitrary (not only integer-valued) data: a reference computed on
+    -- offsets from the first value (no cancellation when the data are clustered), and an error budget that
+    -- covers every correctly rounded two-pass evaluation: |sd − ref| ≤ 64·n·2⁻⁵²·(ref + max|x|)
+    let x0 := sorted[0]!
+    let ds := sorted.map (fun x => x - x0)
+    let md := sumR ds / nF
+    let varRef := sumR (ds.map (fun d => (d - md) * (d - md))) / nF
+    let sdRef := Float.sqrt varRef
+    let maxAbs := sorted.foldl (fun a x => if Float.abs x > a then Float.abs x else a) 0
+    let budget := 64 * nF * 2.220446049250313e-16 * (sdRef + maxAbs)
+    let sdGot := o.f "std"
+    let accurate : List (Option String) := [
+      match sdGot with
+      | some g => if Float.abs (g - sdRef) ≤ budget then none
+                  else some s!"stddev-inaccurate got {g} want {sdRef} (budget {budget})"
+      | none => none ]
     -- percentiles: the expected table
     let m := c.head.cfg.mask
     let perP (p : Int) : List (String × Option Float) :=
@@ -204,7 +220,7 @@ def specTimer (c : Case) (o : Obs) : Option String :=
         | some x => match o.pct.find? (fun e => e.1 == w.1) with
           | none => none
           | some e => if same e.2 x then none else some s!"{w.1} got {fbits e.2} want {fbits x}")
-    firstSome (basic ++ exact ++ pctChecks)
+    firstSome (basic ++ exact ++ accurate ++ pctChecks)
 
 def spec (caseLine implLine : String) : String :=
   match parseCase caseLine with
